@@ -127,27 +127,37 @@ def parseDouble (floatOfText : List Char → Option UInt64) : Val → Except Exc
 
 /-! ## VARCHAR / BLOB (types.py:292-300, 317-322) -/
 
-/-- `if length: value = value[:length]` — `None` and `0` mean no limit. -/
-def limit {α : Type} (guard : Bool) (n : Option Nat) (xs : List α) : List α :=
+/-- Python `xs[:stop]` for an integer `stop` (a negative stop counts from the end). -/
+def pyPrefix {α : Type} (xs : List α) (stop : Int) : List α :=
+  if stop ≥ 0 then xs.take stop.toNat else xs.take ((xs.length : Int) + stop).toNat
+
+/-- `if <test>: value = value[:<stop>]` with the generated test and stop; `length=None` is falsy. -/
+def limitWith {α : Type} (test : Int → Bool) (stop : Int → Int) (n : Option Nat) (xs : List α) : List α :=
   match n with
   | none => xs
-  | some k => if guard && k == 0 then xs else xs.take k
+  | some k => if test k then pyPrefix xs (stop k) else xs
+
+def limitVarchar {α : Type} (n : Option Nat) (xs : List α) : List α :=
+  limitWith (fun k => decide (Gen.Cast.varcharLimitTest k)) Gen.Cast.varcharStop n xs
+
+def limitBlob {α : Type} (n : Option Nat) (xs : List α) : List α :=
+  limitWith (fun k => decide (Gen.Cast.blobLimitTest k)) Gen.Cast.blobStop n xs
 
 def parseVarchar (n : Option Nat) : Val → Except Exc Val
   | .bytes b =>
     match Iso.decodeUtf8 b with
-    | some s => .ok (.str (limit Gen.Cast.varcharLengthGuard n s))
+    | some s => .ok (.str (limitVarchar n s))
     | none => .error .unicodeDecodeError
   | v =>
     match strOf v with
-    | some s => .ok (.str (limit Gen.Cast.varcharLengthGuard n s))
+    | some s => .ok (.str (limitVarchar n s))
     | none => .error .typeError   -- outside the modelled domain (never sent by the harness)
 
 def parseBlob (n : Option Nat) : Val → Except Exc Val
-  | .bytes b => .ok (.bytes (limit Gen.Cast.blobLengthGuard n b))
+  | .bytes b => .ok (.bytes (limitBlob n b))
   | v =>
     match strOf v with
-    | some s => .ok (.bytes (limit Gen.Cast.blobLengthGuard n (utf8 s)))
+    | some s => .ok (.bytes (limitBlob n (utf8 s)))
     | none => .error .typeError   -- outside the modelled domain
 
 /-! ## DATE / TIMESTAMP through the C08 model -/
@@ -172,32 +182,29 @@ def parseTemporal (k : Iso.CastKind) (v : Val) : Except Exc Val :=
 
 def numDigits (n : Nat) : Nat := (Nat.toDigits 10 n).length
 
+/-- `c / 10^k` rounded half to even (`k ≥ 1`). -/
+def roundQuot (c k : Nat) : Nat :=
+  let q := c / 10 ^ k
+  let r := c % 10 ^ k
+  if 2 * r > 10 ^ k ∨ (2 * r = 10 ^ k ∧ q % 2 = 1) then q + 1 else q
+
 /-- Round a coefficient to at most `p` digits, half to even (context rounding of `create_decimal`). -/
 def roundTo (p : Nat) : Dec → Dec
   | .fin neg c e =>
     if numDigits c ≤ p then .fin neg c e
     else
       let k := numDigits c - p
-      let q := c / 10 ^ k
-      let r := c % 10 ^ k
-      let half := 10 ^ k / 2
-      let q' := if r > half ∨ (r = half ∧ q % 2 = 1) then q + 1 else q
+      let q' := roundQuot c k
       if numDigits q' > p then .fin neg (q' / 10) (e + k + 1) else .fin neg q' (e + k)
   | d => d
 
-/-- `d.quantize(Decimal(10) ** -q, context)` with precision `p`: `none` = `InvalidOperation`. -/
-def quantize (p q : Nat) : Dec → Option Dec
-  | .fin neg c e =>
-    let target : Int := -(q : Int)
-    let c' :=
-      if e ≥ target then c * 10 ^ (e - target).toNat
-      else
-        let k := (target - e).toNat
-        let qq := c / 10 ^ k
-        let r := c % 10 ^ k
-        -- `10 ^ k / 2` is exact for k ≥ 1
-        if 2 * r > 10 ^ k ∨ (2 * r = 10 ^ k ∧ qq % 2 = 1) then qq + 1 else qq
-    if numDigits c' > p then none else some (.fin neg c' target)
+/-- Coefficient of `d` rescaled to exponent `target` (rounded half to even when digits are dropped). -/
+def rescale (c : Nat) (e target : Int) : Nat :=
+  if e ≥ target then c * 10 ^ (e - target).toNat else roundQuot c (target - e).toNat
+
+/-- `d.quantize(Decimal(10) ** target, context)` with precision `p`: `none` = `InvalidOperation`. -/
+def quantize (p : Nat) (target : Int) : Dec → Option Dec
+  | .fin neg c e => if numDigits (rescale c e target) > p then none else some (.fin neg (rescale c e target) target)
   | .inf _ => none
   | .nan => some .nan
 
@@ -211,47 +218,84 @@ def allDigits (s : List Char) : Bool := s.all Char.isDigit
 
 def natOf (s : List Char) : Nat := Nat.ofDigitChars 10 s 0
 
+/-- An optional sign. -/
+def splitSign : List Char → Bool × List Char
+  | [] => (false, [])
+  | c :: r => if c = '-' then (true, r) else if c = '+' then (false, r) else (false, c :: r)
+
+def notE (c : Char) : Bool := c != 'e' && c != 'E'
+def notDot (c : Char) : Bool := c != '.'
+
+/-- The exponent part: empty, or `e`/`E`, an optional sign and at least one digit. -/
+def parseExp : List Char → Option Int
+  | [] => some 0
+  | _ :: r =>
+    let sd := splitSign r
+    if !sd.2.isEmpty && allDigits sd.2 then some (if sd.1 then -(natOf sd.2 : Int) else (natOf sd.2 : Int))
+    else none
+
+/-- `digits [. digits] [exponent]` with at least one digit. -/
+def decNumber (neg : Bool) (s : List Char) : Option Dec :=
+  let mant := s.takeWhile notE
+  let rest := s.dropWhile notE
+  let ip := mant.takeWhile notDot
+  let fp := (mant.dropWhile notDot).drop 1
+  if !(allDigits ip && allDigits fp) || (ip.isEmpty && fp.isEmpty) then none
+  else
+    match parseExp rest with
+    | none => none
+    | some x => some (.fin neg (natOf (ip ++ fp)) (x - fp.length))
+
 /-- The numeric-string grammar of `decimal.Decimal` (ASCII, no underscores). -/
 def decOfText (s0 : List Char) : Option Dec :=
-  let (neg, s) := match s0 with
-    | '-' :: r => (true, r)
-    | '+' :: r => (false, r)
-    | r => (false, r)
-  let u := upper s
-  if u == "INF".toList || u == "INFINITY".toList then some (.inf neg)
+  let ns := splitSign s0
+  let u := upper ns.2
+  if u == "INF".toList || u == "INFINITY".toList then some (.inf ns.1)
   else if u == "NAN".toList || u == "SNAN".toList then some .nan
-  else
-    let mant := s.takeWhile (fun c => c != 'e' && c != 'E')
-    let rest := s.dropWhile (fun c => c != 'e' && c != 'E')
-    let ip := mant.takeWhile (· != '.')
-    let fp0 := mant.dropWhile (· != '.')
-    let fp := fp0.drop 1
-    if !(allDigits ip && allDigits fp) || (ip.isEmpty && fp.isEmpty) then none
-    else
-      let ex : Option Int :=
-        match rest with
-        | [] => some 0
-        | _ :: '-' :: ds => if !ds.isEmpty && allDigits ds then some (-(natOf ds : Int)) else none
-        | _ :: '+' :: ds => if !ds.isEmpty && allDigits ds then some (natOf ds : Int) else none
-        | _ :: ds => if !ds.isEmpty && allDigits ds then some (natOf ds : Int) else none
-      match ex with
-      | none => none
-      | some x => some (.fin neg (natOf (ip ++ fp)) (x - fp.length))
+  else decNumber ns.1 ns.2
 
-/-- `DecimalFactory.__call__` on a value that is already text or a Decimal. -/
+/-- Where `Decimal.__str__` puts the point: plain notation when the exponent is not positive and
+there are at most five leading fractional zeros, else scientific with one leading digit. -/
+def dotPlace (e left : Int) : Int := if e ≤ 0 ∧ left > -6 then left else 1
+
+def renderBody (ds : List Char) (dot : Int) : List Char :=
+  if dot ≤ 0 then '0' :: '.' :: (List.replicate (-dot).toNat '0' ++ ds)
+  else if dot ≥ ds.length then ds ++ List.replicate (dot - ds.length).toNat '0'
+  else ds.take dot.toNat ++ '.' :: ds.drop dot.toNat
+
+/-- `"E%+d" % x`, nothing for 0. -/
+def renderExp (x : Int) : List Char :=
+  if x = 0 then [] else 'E' :: (if x < 0 then '-' else '+') :: Nat.toDigits 10 x.natAbs
+
+def renderFin (neg : Bool) (ds : List Char) (e : Int) : List Char :=
+  (if neg then ['-'] else []) ++ renderBody ds (dotPlace e (e + ds.length))
+    ++ renderExp (e + ds.length - dotPlace e (e + ds.length))
+
+/-- `str(d)` for a `decimal.Decimal` (CPython `Decimal.__str__`). -/
+def renderDec : Dec → List Char
+  | .nan => "NaN".toList
+  | .inf neg => (if neg then ['-'] else []) ++ "Infinity".toList
+  | .fin neg c e => renderFin neg (Nat.toDigits 10 c) e
+
+/-- The text handed to `create_decimal`: all-digit text gets `"." + "0" * <generated count>`. -/
+def padText (s : Nat) (t : List Char) : List Char :=
+  if !t.isEmpty && allDigits t then t ++ '.' :: List.replicate (Gen.Cast.padCount s).toNat '0' else t
+
+/-- `context.create_decimal(value)`: parse, then round to the context precision. -/
+def created (prec s : Nat) : Sum (List Char) Dec → Option Dec
+  | .inl t => (decOfText (stripD (padText s t))).map (roundTo prec)
+  | .inr d => some (roundTo prec d)
+
+/-- `DecimalFactory.__call__` on a value that is already text or a Decimal: the generated context
+precision, the generated quantisation exponent, the `InvalidOperation` fallback. -/
 def factory (p s : Nat) (v : Sum (List Char) Dec) : Except Exc Val :=
-  if p = 0 then .error .valueError   -- decimal.Context(prec=0)
+  if Gen.Cast.contextPrec p < 1 then .error .valueError   -- decimal.Context(prec=0)
   else
-    let created : Option Dec :=
-      match v with
-      | .inl t =>
-        let t' := if !t.isEmpty && allDigits t then t ++ '.' :: List.replicate (min s Gen.Cast.padZeros) '0' else t
-        (decOfText (stripD t')).map (roundTo p)
-      | .inr d => some (roundTo p d)
-    match created with
+    let prec := (Gen.Cast.contextPrec p).toNat
+    match created prec s v with
     | none => .error .invalidOperation
     | some d =>
-      match quantize p (min s Gen.Cast.maxQuantScale) d with
+      match quantize prec (Gen.Cast.quantExp (Gen.Cast.quantScale s)) d with
       | some r => .ok (.dec r)
       | none => .ok (.dec d)     -- the InvalidOperation fallback
 
